@@ -305,7 +305,27 @@ pub fn run(args: &[String]) {
         let mut case = Case::new(format!("world-{}-{}", build, i));
         #[cfg(not(feature = "force-inprocess"))]
         let before = crate::interpose::proc_fds();
+        #[cfg(not(feature = "force-inprocess"))]
+        {
+            let mut l = crate::interpose::LEDGER.lock().unwrap();
+            l.open.clear();
+            l.bad_closes.clear();
+            l.not_cloexec.clear();
+            drop(l);
+            crate::interpose::LEDGER_ON.store(true, std::sync::atomic::Ordering::SeqCst);
+        }
         let out = program(&mut rng, nops, max, true);
+        #[cfg(not(feature = "force-inprocess"))]
+        {
+            crate::interpose::LEDGER_ON.store(false, std::sync::atomic::Ordering::SeqCst);
+            let l = crate::interpose::LEDGER.lock().unwrap();
+            if !l.not_cloexec.is_empty() {
+                case.fail(format!(
+                    "descriptors entered the process without close-on-exec (descriptor, how): {:?}",
+                    l.not_cloexec.iter().take(4).collect::<Vec<_>>()
+                ));
+            }
+        }
         for p in &out.problems {
             case.fail(p.clone());
         }
